@@ -142,6 +142,16 @@ def strict_switch_with_slm_mask(doc: dict, params: dict) -> bool:
     """A strict device switch of a sequence that configured an SLM mask."""
     step = doc["expected"].get("step", len(doc["trace"]) - 1)
     tr = doc["trace"]
+    if step < len(tr) and tr[step]["op"]["op"] == "t_sibling":
+        # template world: the (strict) switch is a sibling step, the mask is part of
+        # the template program, and the device must offer DMMs with different
+        # bottom detunings for the automatic pulse to change
+        if tr[step]["op"].get("kind") != "switch_device" or not tr[step]["op"].get("rename"):
+            return False
+        dmm = doc["world"]["device"].get("dmm") or []
+        if len({(d.get("bottom_detuning"), d.get("total_bottom_detuning")) for d in dmm}) < 2:
+            return False
+        return any(o["op"] == "config_slm_mask" for o in doc["world"].get("program", []))
     if step >= len(tr) or tr[step]["op"]["op"] != "switch_device" or not tr[step]["op"].get("strict"):
         return False
     return any(r["op"]["op"] == "config_slm_mask" for r in tr[:step])
